@@ -10,7 +10,7 @@
 #include "buf_spec.h"
 
 /* ghost */
-_Bool g_conn_closed; size_t g_rq_len; ares_query_t *g_lookup;
+_Bool g_conn_closed; size_t g_rq_len; ares_query_t *g_lookup; ares_conn_t *g_conn_ptr;
 #define IB(c) ((c)->in_buf)
 
 /* the frame handed over is exactly [tag+2, tag+2+len16) of the stream buffer: statement C20 "whole messages in order" */
@@ -20,8 +20,16 @@ __CPROVER_requires(abuf == IB(conn)->data + IB(conn)->tag_offset + 2)
 __CPROVER_requires(alen == (size_t)BE16_AT(IB(conn)->data, IB(conn)->tag_offset))
 __CPROVER_requires(IB(conn)->offset == IB(conn)->tag_offset + 2 + alen && IB(conn)->offset <= IB(conn)->data_len)
 __CPROVER_requires(__CPROVER_rw_ok(requeue, sizeof(*requeue)))
-__CPROVER_assigns(*requeue, g_rq_len)
+__CPROVER_requires(!g_conn_closed)
+/* completion callbacks run in here: a follow-up query transmitted on this connection may fail, which closes the connection */
+__CPROVER_assigns(*requeue, g_rq_len, g_conn_closed)
 __CPROVER_ensures(g_rq_len >= __CPROVER_old(g_rq_len) && g_rq_len <= __CPROVER_old(g_rq_len) + 2)
+;
+/* the descriptor table maps the descriptor to this connection exactly as long as it has not been closed */
+ares_conn_t *ares_conn_from_fd(const ares_channel_t *channel, ares_socket_t fd)
+__CPROVER_requires(1)
+__CPROVER_assigns()
+__CPROVER_ensures(g_conn_closed ? __CPROVER_return_value != g_conn_ptr : __CPROVER_return_value == g_conn_ptr)
 ;
 static void handle_conn_error(ares_conn_t *conn, ares_bool_t critical_failure, ares_status_t failure_status)
 __CPROVER_requires(!g_conn_closed)
@@ -50,7 +58,7 @@ static ares_status_t read_answers(ares_conn_t *conn, const ares_timeval_t *now)
 __CPROVER_requires(__CPROVER_is_fresh(conn, sizeof(*conn)) && __CPROVER_is_fresh(conn->server, sizeof(*conn->server)) && __CPROVER_is_fresh(conn->server->channel, sizeof(*conn->server->channel)))
 __CPROVER_requires(__CPROVER_is_fresh(conn->in_buf, sizeof(*conn->in_buf)))
 __CPROVER_requires(IB(conn)->alloc_buf_len <= VCAP && IB(conn)->alloc_buf_len > 0 && __CPROVER_is_fresh(IB(conn)->alloc_buf, IB(conn)->alloc_buf_len) && __CPROVER_pointer_equals(IB(conn)->data, IB(conn)->alloc_buf) && IB(conn)->data_len < IB(conn)->alloc_buf_len && IB(conn)->offset <= IB(conn)->data_len && IB(conn)->tag_offset == NOTAG)
-__CPROVER_requires(!g_conn_closed && g_rq_len == 0)
+__CPROVER_requires(!g_conn_closed && g_rq_len == 0 && g_conn_ptr == conn)
 __CPROVER_assigns(IB(conn)->offset, IB(conn)->tag_offset, g_conn_closed, g_rq_len, g_lookup)
 __CPROVER_ensures(IB(conn)->offset <= IB(conn)->data_len && IB(conn)->offset >= __CPROVER_old(IB(conn)->offset))
 /* statement C20: whatever is left unread is an incomplete frame that starts at a frame boundary (or the connection failed) */
